@@ -465,6 +465,11 @@ class ModuleEnv:
                 bind[gname] = fresh_value(parse_sort(gsort), gname)     # unconstrained: requires must hold for it
         env = dict(bind)
         env.update({k: v for k, v in st.env.items() if k.startswith('$g_')})
+        for gname in c.get('ghost_results', []):       # callee ghosts visible to the caller (e.g. proof witnesses)
+            gv = VInt(z3.Int(fresh_name(gname)))
+            env[gname] = gv
+            if not st.spec:
+                st.env.setdefault(gname, gv)
         sub = State()
         sub.env, sub.pc, sub.spec, sub.old = env, st.pc, True, env
         ln = node.lineno
